@@ -502,15 +502,43 @@ class Slice:
 
     def members(self, relpath: str, container: str, names, wrap: str):
         """Cut the named members of `container` and re-wrap them as `wrap { ... }`."""
-        src = self._src(relpath)
-        body = []
-        for nm in names:
-            spec = f'{container} / {nm}'
-            txt = src.cut(spec)
-            self.cut_log.append((relpath, spec, len(src.resolve(spec)), txt.count('\n')))
-            body.append(f'// ---- cut from {relpath}: {spec}\n{txt}')
-        self.parts.append(f'{wrap} {{\n' + '\n'.join(body) + '}\n')
+        grp = dict(relpath=relpath, container=container, names=list(names), wrap=wrap)
+        self._render_members(grp)          # fail early if a named member is missing
+        self.parts.append(grp)
         return self
+
+    def _render_members(self, grp) -> str:
+        src = self._src(grp['relpath'])
+        body = []
+        for nm in grp['names']:
+            spec = f"{grp['container']} / {nm}"
+            txt = src.cut(spec)
+            entry = (grp['relpath'], spec, len(src.resolve(spec)), txt.count('\n'))
+            if entry not in self.cut_log:
+                self.cut_log.append(entry)
+            body.append(f"// ---- cut from {grp['relpath']}: {spec}\n{txt}")
+        return f"{grp['wrap']} {{\n" + '\n'.join(body) + '}\n'
+
+    def _pull_in(self, missing) -> bool:
+        """The sliced members refer to sibling members that were not listed (a change to the repository added a helper val /
+        def next to them): add every `missing` name that is a member of a container already sliced.  -> True if anything was added."""
+        added = False
+        for name in missing:
+            for grp in [g for g in self.parts if isinstance(g, dict)]:
+                src = self._src(grp['relpath'])
+                for kind in ('val', 'lazy val', 'var', 'def', 'object', 'class', 'case class'):
+                    spec = f'{kind} {name}'
+                    if spec in grp['names']:
+                        break
+                    try:
+                        src.cut(f"{grp['container']} / {spec}")
+                    except JvmSliceError:
+                        continue
+                    grp['names'].insert(0, spec)
+                    self.auto_added = getattr(self, 'auto_added', []) + [f"{grp['relpath']}: {grp['container']} / {spec}"]
+                    added = True
+                    break
+        return added
 
     def handler(self, body: str):
         """Scala body of `def handle(op: String, a: Array[String]): String` (returns one JSON value)."""
@@ -522,7 +550,8 @@ class Slice:
             raise JvmSliceError('slice has no handler')
         main = ('object SliceMain {\n  import SliceIO._\n  def handle(op: String, a: Array[String]): String = {\n'
                 + self._handler.strip('\n') + '\n  }\n  def main(args: Array[String]): Unit = SliceIO.loop(handle)\n}\n')
-        return '\n'.join(self.parts) + '\n' + RUNTIME + '\n' + main
+        parts = [self._render_members(x) if isinstance(x, dict) else x for x in self.parts]
+        return '\n'.join(parts) + '\n' + RUNTIME + '\n' + main
 
     # -- compile ------------------------------------------------------------------------------------------
     def lib_classpath(self):
@@ -535,7 +564,19 @@ class Slice:
         return cp
 
     def compile(self) -> str:
-        """-> directory with class files (compiled now or taken from the cache)."""
+        """-> directory with class files (compiled now or taken from the cache).  Names the compiler cannot find are looked up among
+        the members of the containers already sliced and pulled in (at most 6 rounds)."""
+        import re as _re
+        for _round in range(6):
+            try:
+                return self._compile_once()
+            except JvmSliceError as e:
+                missing = sorted(set(_re.findall(r'Not found: (?:type )?([A-Za-z_][A-Za-z0-9_]*)', str(e))))
+                if not missing or not self._pull_in(missing):
+                    raise
+        return self._compile_once()
+
+    def _compile_once(self) -> str:
         tc = toolchain()
         text = self.text()
         key = hashlib.sha256(('jvmslice-v1\n' + '\n'.join(os.path.basename(p) for p in self.lib_classpath())
